@@ -684,9 +684,14 @@ theorem amtEq_toRat (a b : Amount) (h : amtEq a b = true) : a.toRat = b.toRat :=
   unfold Amount.toRat
   rw [hv, hx]
 
+/-- surcharge percentage of a rate group / of a combo (0 when there is none) -/
+def surO (o : Option (Pct × Amount)) : ℚ := match o with | some (sp, _) => sp.amount.toRat | none => 0
+def surR (rt : RateTotal) : ℚ := surO rt.surcharge
+def surC (cb : Combo) : ℚ := match cb.surcharge with | some sp => sp.amount.toRat | none => 0
+
 theorem rtMatches_percent (rt : RateTotal) (cb : Combo) (h : rtMatches rt cb = true) :
     (rt.percent = none ∧ cb.percent = none) ∨
-    ∃ p q, rt.percent = some p ∧ cb.percent = some q ∧ p.amount.toRat = q.amount.toRat := by
+    ∃ p q, rt.percent = some p ∧ cb.percent = some q ∧ p.amount.toRat = q.amount.toRat ∧ surR rt = surC cb := by
   unfold rtMatches at h
   split at h
   · simp at h
@@ -702,52 +707,85 @@ theorem rtMatches_percent (rt : RateTotal) (cb : Combo) (h : rtMatches rt cb = t
         | none => simp [hp, hq] at h
         | some q =>
           simp only [hp, hq, Bool.and_eq_true] at h
-          exact Or.inr ⟨p, q, rfl, rfl, amtEq_toRat _ _ h.2⟩
+          refine Or.inr ⟨p, q, rfl, rfl, amtEq_toRat _ _ h.2, ?_⟩
+          have h1 := h.1
+          unfold surR surO surC
+          cases hs : rt.surcharge with
+          | none =>
+            cases hc : cb.surcharge with
+            | none => rfl
+            | some sq => simp [hs, hc] at h1
+          | some x =>
+            obtain ⟨sp, sa⟩ := x
+            cases hc : cb.surcharge with
+            | none => simp [hs, hc] at h1
+            | some sq =>
+              simp only [hs, hc] at h1
+              exact amtEq_toRat _ _ h1
 
 variable {ret : String → Bool}
 
-/-- a tax combo of the covered class: no surcharge, exempt or a percentage of at most 100 % in
-magnitude; whether it is retained (subtracted) is a function `ret` of its category alone -/
+/-- a tax combo of the covered class: exempt or a percentage of at most 100 % in magnitude, with
+or without a surcharge of at most 100 %; whether it is retained (subtracted) is a function `ret` of
+its category alone -/
 def ComboOk (ret : String → Bool) (cb : Combo) : Prop :=
-  cb.retained = ret cb.cat ∧ cb.surcharge = none ∧ ∀ p, cb.percent = some p → |p.amount.toRat| ≤ 1
+  cb.retained = ret cb.cat ∧ (∀ p, cb.percent = some p → |p.amount.toRat| ≤ 1) ∧
+  (∀ sp, cb.surcharge = some sp → |sp.amount.toRat| ≤ 1)
 
 /-- magnitude of the exact tax of one combo on a row total `t` -/
 def comboU (t : ℚ) (cb : Combo) : ℚ :=
   match cb.percent with
-  | some p => t * p.amount.toRat
+  | some p => t * (p.amount.toRat + surC cb)
   | none => 0
 
 /-- … signed: retained taxes are subtracted -/
 def comboQ (t : ℚ) (cb : Combo) : ℚ := if cb.retained then -(comboU t cb) else comboU t cb
 
+/-- weight of a combo: its percentage, and its surcharge when it has one -/
+def cW (cb : Combo) : ℕ := if cb.surcharge.isSome then 2 else 1
+def comboW (taxes : List Combo) : ℕ := (taxes.map cW).sum
+
 /-- the exact tax of a row with total `t` (prices not including tax), as `Spec.C01.exactQ` has it -/
 def rowQ (t : ℚ) (taxes : List Combo) : ℚ := (Spec.C01.rowTaxQ none t taxes).1
 
-theorem rowQ_eq (t : ℚ) (taxes : List Combo) (h : ∀ cb ∈ taxes, ComboOk ret cb) :
-    rowQ t taxes = (taxes.map (comboQ t)).sum := by
+theorem rowQ_eq (t : ℚ) (taxes : List Combo) : rowQ t taxes = (taxes.map (comboQ t)).sum := by
   unfold rowQ Spec.C01.rowTaxQ
   simp only
   congr 1
   apply List.map_congr_left
-  intro cb hcb
-  obtain ⟨_, hs, _⟩ := h cb hcb
-  unfold comboQ comboU
+  intro cb _
+  unfold comboQ comboU surC
   cases hp : cb.percent with
   | none => simp
-  | some p => simp [hs, Spec.C01.pq]
+  | some p => cases hs : cb.surcharge <;> simp [Spec.C01.pq]
 
-theorem comboQ_diff (T t : ℚ) (cb : Combo) (h : ComboOk ret cb) : |comboQ T cb - comboQ t cb| ≤ |T - t| := by
-  have hu : |comboU T cb - comboU t cb| ≤ |T - t| := by
+theorem surC_le (cb : Combo) (h : ComboOk ret cb) : |surC cb| ≤ ((cW cb : ℕ) : ℚ) - 1 := by
+  unfold surC cW
+  cases hs : cb.surcharge with
+  | none => simp
+  | some sp =>
+    have := h.2.2 sp hs
+    simp only [Option.isSome_some, if_true]
+    push_cast
+    linarith
+
+theorem comboQ_diff (T t : ℚ) (cb : Combo) (h : ComboOk ret cb) :
+    |comboQ T cb - comboQ t cb| ≤ ((cW cb : ℕ) : ℚ) * |T - t| := by
+  have hu : |comboU T cb - comboU t cb| ≤ ((cW cb : ℕ) : ℚ) * |T - t| := by
     unfold comboU
     cases hp : cb.percent with
-    | none => simp
+    | none => simp only [sub_self, abs_zero]; positivity
     | some p =>
       simp only
-      have hle := h.2.2 p hp
-      have e : T * p.amount.toRat - t * p.amount.toRat = (T - t) * p.amount.toRat := by ring
-      rw [e, abs_mul]
-      calc |T - t| * |p.amount.toRat| ≤ |T - t| * 1 := mul_le_mul_of_nonneg_left hle (abs_nonneg _)
-        _ = |T - t| := mul_one _
+      have hle := h.2.1 p hp
+      have hsl := surC_le cb h
+      have e : T * (p.amount.toRat + surC cb) - t * (p.amount.toRat + surC cb) =
+          (T - t) * (p.amount.toRat + surC cb) := by ring
+      rw [e, abs_mul, mul_comm]
+      have hsum : |p.amount.toRat + surC cb| ≤ ((cW cb : ℕ) : ℚ) := by
+        have := abs_add_le p.amount.toRat (surC cb)
+        linarith
+      exact mul_le_mul_of_nonneg_right hsum (abs_nonneg _)
   unfold comboQ
   split
   · have e : -(comboU T cb) - -(comboU t cb) = -(comboU T cb - comboU t cb) := by ring
@@ -755,13 +793,15 @@ theorem comboQ_diff (T t : ℚ) (cb : Combo) (h : ComboOk ret cb) : |comboQ T cb
   · exact hu
 
 theorem rowQ_diff (T t : ℚ) (taxes : List Combo) (h : ∀ cb ∈ taxes, ComboOk ret cb) :
-    |rowQ T taxes - rowQ t taxes| ≤ (taxes.length : ℚ) * |T - t| := by
-  rw [rowQ_eq T taxes h, rowQ_eq t taxes h]
-  exact list_sum_diff_le taxes (comboQ T) (comboQ t) _ (fun cb hcb => comboQ_diff T t cb (h cb hcb))
+    |rowQ T taxes - rowQ t taxes| ≤ (comboW taxes : ℚ) * |T - t| := by
+  rw [rowQ_eq T taxes, rowQ_eq t taxes]
+  have := list_sum_diff_le' taxes (comboQ T) (comboQ t) (fun cb => ((cW cb : ℕ) : ℚ) * |T - t|)
+    (fun cb hcb => comboQ_diff T t cb (h cb hcb))
+  exact le_trans this (le_of_eq (sum_map_mul_const taxes cW _))
 
 def rateQ (rt : RateTotal) : ℚ :=
   match rt.percent with
-  | some p => rt.base.toRat * p.amount.toRat
+  | some p => rt.base.toRat * (p.amount.toRat + surR rt)
   | none => 0
 
 def ratesQ (rts : List RateTotal) : ℚ := (rts.map rateQ).sum
@@ -769,9 +809,9 @@ def ratesQ (rts : List RateTotal) : ℚ := (rts.map rateQ).sum
 def catsQ (cats : List CatTotal) : ℚ :=
   (cats.map (fun ct => if ct.retained then -(ratesQ ct.rates) else ratesQ ct.rates)).sum
 
-/-- every group has no surcharge and a base between the working precision and `E` -/
+/-- every group has a base between the working precision and `E` -/
 def RatesInv (c E : ℕ) (rts : List RateTotal) : Prop :=
-  ∀ rt ∈ rts, rt.surcharge = none ∧ c + 2 ≤ rt.base.exp ∧ rt.base.exp ≤ E
+  ∀ rt ∈ rts, c + 2 ≤ rt.base.exp ∧ rt.base.exp ≤ E
 
 theorem base_step_precise (base t : Amount) :
     (add exactOps (mrp .precise base t) t).toRat = base.toRat + t.toRat ∧
@@ -780,25 +820,33 @@ theorem base_step_precise (base t : Amount) :
   have := (base_step .precise 0 base t (fun h => by cases h)).1
   simpa [contrib] using this
 
+theorem rateQ_new (c : ℕ) (cb : Combo) (b : Amount) :
+    rateQ { newRate c cb with base := b } = comboU b.toRat cb := by
+  unfold rateQ comboU surR surO surC newRate
+  cases cb.percent <;> cases cb.surcharge <;> rfl
+
 theorem addToRates_w (c E : ℕ) (cb : Combo) (t : Amount) (rts : List RateTotal)
-    (hcb : cb.surcharge = none) (ht1 : c + 2 ≤ t.exp) (ht2 : t.exp ≤ E) (hinv : RatesInv c E rts) :
+    (ht1 : c + 2 ≤ t.exp) (ht2 : t.exp ≤ E) (hinv : RatesInv c E rts) :
     ratesQ (addToRates exactOps .precise c cb t rts) = ratesQ rts + comboU t.toRat cb ∧
     RatesInv c E (addToRates exactOps .precise c cb t rts) := by
   induction rts with
   | nil =>
     obtain ⟨b1, b2⟩ := base_step_precise ⟨0, c⟩ t
-    simp only [addToRates, newRate, ratesQ, List.map_cons, List.map_nil, List.sum_cons, List.sum_nil]
+    simp only [addToRates, ratesQ, List.map_cons, List.map_nil, List.sum_cons, List.sum_nil]
     refine ⟨?_, ?_⟩
-    · simp only [rateQ, comboU, b1]
-      cases cb.percent <;> simp [Amount.toRat]
+    · have hb : (newRate c cb).base = ⟨0, c⟩ := rfl
+      rw [rateQ_new, hb, b1]
+      have hz : (⟨0, c⟩ : Amount).toRat = 0 := by simp [Amount.toRat]
+      rw [hz]; ring
     · intro rt hrt
       simp only [List.mem_singleton] at hrt
       subst hrt
-      simp only [hcb, Option.map_none, b2, true_and]
-      omega
+      have hb : (newRate c cb).base = ⟨0, c⟩ := rfl
+      have hc0 : (⟨0, c⟩ : Amount).exp = c := rfl
+      exact ⟨by simp only [hb, b2, hc0]; omega, by simp only [hb, b2, hc0]; omega⟩
   | cons rt rts ih =>
     have hinv' : RatesInv c E rts := fun x hx => hinv x (by simp [hx])
-    obtain ⟨hs, he1, he2⟩ := hinv rt (by simp)
+    obtain ⟨he1, he2⟩ := hinv rt (by simp)
     simp only [addToRates]
     split
     · rename_i hm
@@ -806,14 +854,15 @@ theorem addToRates_w (c E : ℕ) (cb : Combo) (t : Amount) (rts : List RateTotal
       refine ⟨?_, ?_⟩
       · simp only [ratesQ, List.map_cons, List.sum_cons]
         have : rateQ { rt with base := add exactOps (mrp .precise rt.base t) t } = rateQ rt + comboU t.toRat cb := by
-          rcases rtMatches_percent rt cb hm with ⟨h1, h2⟩ | ⟨p, q, h1, h2, h3⟩
+          rcases rtMatches_percent rt cb hm with ⟨h1, h2⟩ | ⟨p, q, h1, h2, h3, h4⟩
           · simp [rateQ, comboU, h1, h2]
-          · simp only [rateQ, comboU, h1, h2, b1, h3]; ring
+          · unfold surR at h4
+            simp only [rateQ, comboU, h1, h2, b1, h3, surR, h4]; ring
         rw [this]; ring
       · intro x hx
         simp only [List.mem_cons] at hx
         rcases hx with rfl | hx
-        · simp only [hs, b2, true_and]; omega
+        · exact ⟨by simp only [b2]; omega, by simp only [b2]; omega⟩
         · exact hinv' x hx
     · obtain ⟨i1, i2⟩ := ih hinv'
       refine ⟨?_, ?_⟩
@@ -834,7 +883,7 @@ theorem addToCats_w (c E : ℕ) (cb : Combo) (t : Amount) (cats : List CatTotal)
     CatsInv ret c E (addToCats exactOps .precise c cb t cats) := by
   induction cats with
   | nil =>
-    obtain ⟨h1, h2⟩ := addToRates_w c E cb t [] hcb.2.1 ht1 ht2 (fun _ h => by simp at h)
+    obtain ⟨h1, h2⟩ := addToRates_w c E cb t [] ht1 ht2 (fun _ h => by simp at h)
     simp only [addToCats, catsQ, List.map_cons, List.map_nil, List.sum_cons, List.sum_nil]
     refine ⟨?_, ?_⟩
     · rw [h1]; simp [ratesQ, comboQ]
@@ -849,7 +898,7 @@ theorem addToCats_w (c E : ℕ) (cb : Combo) (t : Amount) (cats : List CatTotal)
     · rename_i hcode
       have hcode' : ct.code = cb.cat := by simpa using hcode
       have hsame : ct.retained = cb.retained := by rw [(hinv ct (by simp)).1, hcb.1, hcode']
-      obtain ⟨h1, h2⟩ := addToRates_w c E cb t ct.rates hcb.2.1 ht1 ht2 (hinv ct (by simp)).2
+      obtain ⟨h1, h2⟩ := addToRates_w c E cb t ct.rates ht1 ht2 (hinv ct (by simp)).2
       refine ⟨?_, ?_⟩
       · simp only [catsQ, List.map_cons, List.sum_cons, h1, comboQ, hsame]
         split <;> ring
@@ -907,7 +956,7 @@ theorem baseRateTotals_w (c E : ℕ) (rows : List Row) (cats : List CatTotal)
     refine ⟨?_, i2⟩
     rw [List.foldl_cons, i1, f1]
     simp only [List.map_cons, List.sum_cons]
-    rw [rowQ_eq _ _ hc]
+    rw [rowQ_eq]
     ring
 
 /-! ### amounts of the groups, categories and the tax sum -/
@@ -915,45 +964,129 @@ theorem baseRateTotals_w (c E : ℕ) (rows : List Row) (cats : List CatTotal)
 theorem rateAmounts_percent (rt : RateTotal) (c : ℕ) : (rateAmounts exactOps rt c).percent = rt.percent := by
   unfold rateAmounts; split <;> simp_all
 
-theorem rateAmounts_surcharge_none (rt : RateTotal) (c : ℕ) (h : rt.surcharge = none) :
-    (rateAmounts exactOps rt c).surcharge = none := by
-  unfold rateAmounts; split <;> simp [h]
+/-- weight of a rate group: its amount, and its surcharge when it has one -/
+def rateW (rt : RateTotal) : ℕ := if rt.surcharge.isSome then 2 else 1
+def ratesW (rts : List RateTotal) : ℕ := (rts.map rateW).sum
+
+theorem rateAmounts_rateW (rt : RateTotal) (c : ℕ) : rateW (rateAmounts exactOps rt c) = rateW rt := by
+  unfold rateW rateAmounts
+  split <;> simp [Option.isSome_map]
+
+/-- what a group adds to the category surcharge -/
+def surAmt (rt : RateTotal) : ℚ :=
+  match rt.percent, rt.surcharge with
+  | some _, some (_, sa) => sa.toRat
+  | _, _ => 0
 
 theorem rateAmounts_err (rt : RateTotal) (c E : ℕ) (h1 : c + 2 ≤ rt.base.exp) (h2 : rt.base.exp ≤ E) (hc : c ≤ E) :
     (rateAmounts exactOps rt c).amount.exp ≤ E ∧
-    |taxedAmount .precise c (rateAmounts exactOps rt c) - rateQ rt| ≤ halfUlp (c + 2) := by
-  unfold taxedAmount rateQ
-  rw [rateAmounts_percent]
+    (∀ sp sa, (rateAmounts exactOps rt c).percent.isSome →
+      (rateAmounts exactOps rt c).surcharge = some (sp, sa) → sa.exp ≤ E) ∧
+    |taxedAmount .precise c (rateAmounts exactOps rt c) + surAmt (rateAmounts exactOps rt c) - rateQ rt| ≤
+      (rateW rt : ℚ) * halfUlp (c + 2) := by
+  have h0 := halfUlp_nonneg (c + 2)
+  have hper := rateAmounts_percent rt c
   cases hp : rt.percent with
   | none =>
-    refine ⟨?_, by simp [halfUlp_nonneg]⟩
-    simp [rateAmounts, hp, hc]
+    have hamt : (rateAmounts exactOps rt c).amount = ⟨0, c⟩ := by simp [rateAmounts, hp]
+    rw [hp] at hper
+    refine ⟨by rw [hamt]; exact hc, ?_, ?_⟩
+    · intro sp sa hsome; simp [hper] at hsome
+    · simp only [taxedAmount, surAmt, rateQ, hper, hp, add_zero, sub_self, abs_zero]
+      positivity
   | some p =>
-    have hv : (rateAmounts exactOps rt c).amount = rt.base.mulX p.amount := by
+    rw [hp] at hper
+    have hamt : (rateAmounts exactOps rt c).amount = rt.base.mulX p.amount := by
       simp [rateAmounts, hp, pctOf]
-    simp only [contrib, hv, mulX_exp]
-    exact ⟨h2, le_trans (mulX_err rt.base p.amount) (halfUlp_mono _ _ h1)⟩
+    have hsur : (rateAmounts exactOps rt c).surcharge =
+        rt.surcharge.map (fun x => (x.1, rt.base.mulX x.1.amount)) := by
+      simp [rateAmounts, hp, pctOf]
+    have e1 := le_trans (mulX_err rt.base p.amount) (halfUlp_mono _ _ h1)
+    refine ⟨by rw [hamt]; exact h2, ?_, ?_⟩
+    · intro sp sa _ hs
+      rw [hsur] at hs
+      cases hsr : rt.surcharge with
+      | none => simp [hsr] at hs
+      | some x =>
+        simp only [hsr, Option.map_some, Option.some.injEq, Prod.mk.injEq] at hs
+        rw [← hs.2]; exact h2
+    · simp only [taxedAmount, surAmt, rateQ, hper, hp, contrib, hamt, hsur, surR, surO, rateW]
+      cases hsr : rt.surcharge with
+      | none =>
+        simp only [Option.map_none, add_zero, Option.isSome_none, Bool.false_eq_true, if_false]
+        push_cast
+        linarith
+      | some x =>
+        obtain ⟨sp, sa0⟩ := x
+        simp only [Option.map_some, Option.isSome_some, if_true]
+        have e2 := le_trans (mulX_err rt.base sp.amount) (halfUlp_mono _ _ h1)
+        have e : (rt.base.mulX p.amount).toRat + (rt.base.mulX sp.amount).toRat
+            - rt.base.toRat * (p.amount.toRat + sp.amount.toRat) =
+            ((rt.base.mulX p.amount).toRat - rt.base.toRat * p.amount.toRat) +
+            ((rt.base.mulX sp.amount).toRat - rt.base.toRat * sp.amount.toRat) := by ring
+        rw [e]
+        refine le_trans (abs_add_le _ _) ?_
+        push_cast
+        linarith
 
-theorem surchargeFold_none (r : Rule) (c : ℕ) (rates : List RateTotal) (h : ∀ rt ∈ rates, rt.surcharge = none) :
-    rates.foldl (fun (s : Option Amount) rt =>
+theorem getD_toRat (zs : Option Amount) (c : ℕ) : (zs.getD ⟨0, c⟩).toRat = optQ zs := by
+  cases zs <;> simp [optQ, Amount.toRat]
+
+/-- the category surcharge is the exact sum of the groups' surcharges -/
+theorem surchargeFold_spec (c E : ℕ) (rates : List RateTotal) (zs : Option Amount)
+    (hz : ∀ s, zs = some s → s.exp ≤ E) (hc : c ≤ E)
+    (hsa : ∀ rt ∈ rates, ∀ sp sa, rt.percent.isSome → rt.surcharge = some (sp, sa) → sa.exp ≤ E) :
+    optQ (rates.foldl (fun (s : Option Amount) rt =>
       match rt.percent, rt.surcharge with
       | some _, some (_, sa) =>
         let x := s.getD ⟨0, c⟩
-        some (add exactOps (mrp r x sa) sa)
-      | _, _ => s) none = none := by
-  induction rates with
-  | nil => rfl
+        some (add exactOps (mrp .precise x sa) sa)
+      | _, _ => s) zs) = optQ zs + (rates.map surAmt).sum ∧
+    (∀ s, rates.foldl (fun (s : Option Amount) rt =>
+      match rt.percent, rt.surcharge with
+      | some _, some (_, sa) =>
+        let x := s.getD ⟨0, c⟩
+        some (add exactOps (mrp .precise x sa) sa)
+      | _, _ => s) zs = some s → s.exp ≤ E) := by
+  induction rates generalizing zs with
+  | nil => simp only [List.foldl_nil, List.map_nil, List.sum_nil, add_zero, true_and]; exact hz
   | cons rt rates ih =>
     rw [List.foldl_cons]
-    have hs := h rt (by simp)
-    have : (match rt.percent, rt.surcharge with
-      | some _, some (_, sa) =>
-        let x := (none : Option Amount).getD ⟨0, c⟩
-        some (add exactOps (mrp r x sa) sa)
-      | _, _ => (none : Option Amount)) = none := by
-      rw [hs]; cases rt.percent <;> rfl
-    rw [this]
-    exact ih (fun x hx => h x (by simp [hx]))
+    have hrest := fun x hx => hsa x (List.mem_cons_of_mem rt hx)
+    cases hp : rt.percent with
+    | none =>
+      obtain ⟨i1, i2⟩ := ih zs hz hrest
+      simp only [hp] at i1 i2 ⊢
+      refine ⟨?_, i2⟩
+      rw [i1]; simp [surAmt, hp]
+    | some p =>
+      cases hsr : rt.surcharge with
+      | none =>
+        obtain ⟨i1, i2⟩ := ih zs hz hrest
+        simp only [hp, hsr] at i1 i2 ⊢
+        refine ⟨?_, i2⟩
+        rw [i1]; simp [surAmt, hp, hsr]
+      | some x =>
+        obtain ⟨sp, sa⟩ := x
+        have hsae : sa.exp ≤ E := hsa rt (by simp) sp sa (by simp [hp]) hsr
+        obtain ⟨b1, b2⟩ := base_step_precise (zs.getD ⟨0, c⟩) sa
+        have hz' : ∀ s, some (add exactOps (mrp .precise (zs.getD ⟨0, c⟩) sa) sa) = some s → s.exp ≤ E := by
+          intro s hs
+          injection hs with hs
+          rw [← hs, b2]
+          have : (zs.getD ⟨0, c⟩).exp ≤ E := by
+            cases zs with
+            | none => exact hc
+            | some z => exact hz z rfl
+          omega
+        obtain ⟨i1, i2⟩ := ih _ hz' hrest
+        simp only [hp, hsr] at i1 i2 ⊢
+        refine ⟨?_, i2⟩
+        rw [i1]
+        simp only [optQ, Option.map_some, Option.getD_some, b1, List.map_cons, List.sum_cons, surAmt, hp, hsr]
+        rw [getD_toRat]
+        simp only [optQ]
+        ring
 
 theorem amountFold_exp_le (E : ℕ) (rates : List RateTotal) (z : Amount) (hz : z.exp ≤ E)
     (h : ∀ rt ∈ rates, rt.amount.exp ≤ E) :
@@ -974,41 +1107,61 @@ theorem amountFold_exp_le (E : ℕ) (rates : List RateTotal) (z : Amount) (hz : 
       have := h rt (by simp)
       omega
 
-/-- one category: no surcharge, not retained, amount not finer than `E`, within one half-unit per
-group of Σ base × percentage -/
+theorem sum_map_add {α : Type} (xs : List α) (f g : α → ℚ) :
+    (xs.map (fun x => f x + g x)).sum = (xs.map f).sum + (xs.map g).sum := by
+  induction xs with
+  | nil => simp
+  | cons x xs ih => simp only [List.map_cons, List.sum_cons, ih]; ring
+
+/-- one category: amount not finer than `E`, amount + surcharge within one half-unit per rounding
+point (group amount, group surcharge) of Σ base × (percentage + surcharge percentage) -/
 theorem catAmounts_w (c E : ℕ) (ct : CatTotal) (hinv : RatesInv c E ct.rates) (hc : c ≤ E) :
     (catAmounts exactOps .precise c ct).retained = ct.retained ∧
-    (catAmounts exactOps .precise c ct).surcharge = none ∧
     (catAmounts exactOps .precise c ct).amount.exp ≤ E ∧
-    (catAmounts exactOps .precise c ct).rates.length = ct.rates.length ∧
-    |(catAmounts exactOps .precise c ct).amount.toRat - ratesQ ct.rates| ≤ (ct.rates.length : ℚ) * halfUlp (c + 2) := by
-  refine ⟨rfl, ?_, ?_, ?_, ?_⟩
-  · simp only [catAmounts]
-    apply surchargeFold_none
-    intro rt hrt
-    simp only [List.mem_map] at hrt
-    obtain ⟨x, hx, rfl⟩ := hrt
-    exact rateAmounts_surcharge_none x c (hinv x hx).1
+    ratesW (catAmounts exactOps .precise c ct).rates = ratesW ct.rates ∧
+    |(catAmounts exactOps .precise c ct).amount.toRat + optQ (catAmounts exactOps .precise c ct).surcharge
+      - ratesQ ct.rates| ≤ (ratesW ct.rates : ℚ) * halfUlp (c + 2) := by
+  have hrates : (catAmounts exactOps .precise c ct).rates = ct.rates.map (rateAmounts exactOps · c) := rfl
+  refine ⟨rfl, ?_, ?_, ?_⟩
   · simp only [catAmounts]
     apply amountFold_exp_le E _ _ hc
     intro rt hrt
     simp only [List.mem_map] at hrt
     obtain ⟨x, hx, rfl⟩ := hrt
-    exact (rateAmounts_err x c E (hinv x hx).2.1 (hinv x hx).2.2 hc).1
-  · simp [catAmounts]
+    exact (rateAmounts_err x c E (hinv x hx).1 (hinv x hx).2 hc).1
+  · rw [hrates]
+    unfold ratesW
+    rw [List.map_map]
+    congr 1
+    apply List.map_congr_left
+    intro x _
+    exact rateAmounts_rateW x c
   · rw [catAmounts_amount]
-    have hrates : (catAmounts exactOps .precise c ct).rates = ct.rates.map (rateAmounts exactOps · c) := rfl
-    rw [hrates, List.map_map]
-    unfold ratesQ
-    exact list_sum_diff_le ct.rates _ rateQ _
-      (fun x hx => (rateAmounts_err x c E (hinv x hx).2.1 (hinv x hx).2.2 hc).2)
+    have hsur : optQ (catAmounts exactOps .precise c ct).surcharge =
+        ((ct.rates.map (rateAmounts exactOps · c)).map surAmt).sum := by
+      have := (surchargeFold_spec c E (ct.rates.map (rateAmounts exactOps · c)) none (fun s hs => by cases hs) hc
+        (by
+          intro rt hrt
+          simp only [List.mem_map] at hrt
+          obtain ⟨x, hx, rfl⟩ := hrt
+          exact (rateAmounts_err x c E (hinv x hx).1 (hinv x hx).2 hc).2.1)).1
+      simp only [catAmounts]
+      refine this.trans ?_
+      simp [optQ]
+    rw [hsur, hrates, List.map_map, List.map_map, ← sum_map_add]
+    unfold ratesQ ratesW
+    have := list_sum_diff_le' ct.rates
+      (fun x => (taxedAmount .precise c ∘ (rateAmounts exactOps · c)) x + (surAmt ∘ (rateAmounts exactOps · c)) x)
+      rateQ (fun x => ((rateW x : ℕ) : ℚ) * halfUlp (c + 2))
+      (fun x hx => (rateAmounts_err x c E (hinv x hx).1 (hinv x hx).2 hc).2.2)
+    exact le_trans this (le_of_eq (sum_map_mul_const ct.rates rateW _))
 
 theorem finalSum_exp_le (c E : ℕ) (cats : List CatTotal) (hc : c ≤ E)
-    (h : ∀ ct ∈ cats, ct.surcharge = none ∧ ct.amount.exp ≤ E) :
+    (h : ∀ ct ∈ cats, ct.amount.exp ≤ E) :
     (finalSum exactOps .precise c cats).exp ≤ E := by
   unfold finalSum
   have key : ∀ (cats : List CatTotal) (z : Amount), z.exp ≤ E →
-      (∀ ct ∈ cats, ct.surcharge = none ∧ ct.amount.exp ≤ E) →
+      (∀ ct ∈ cats, ct.amount.exp ≤ E) →
       (cats.foldl (fun s ct =>
         let s1 := mrp .precise s ct.amount
         if ct.retained then
@@ -1024,55 +1177,63 @@ theorem finalSum_exp_le (c E : ℕ) (cats : List CatTotal) (hc : c ≤ E)
       intro z hz h
       rw [List.foldl_cons]
       apply ih _ _ (fun x hx => h x (by simp [hx]))
-      obtain ⟨hs, he⟩ := h ct (by simp)
-      simp only [hs, mrp]
-      split <;> simp only [sub_exp, add_exp, up_exp] <;> omega
+      have he := h ct (by simp)
+      simp only [mrp]
+      cases ct.surcharge <;> split <;> simp only [sub_exp, add_exp, up_exp] <;> omega
   exact key cats ⟨0, c⟩ hc h
 
-/-- number of rate groups of a tax summary -/
-def groupsOf (cats : List CatTotal) : ℕ := (cats.map (·.rates.length)).sum
+/-- number of rounding points of a tax summary: one per rate group, one more when the group has a
+surcharge (without surcharges: the number of rate groups) -/
+def groupsOf (cats : List CatTotal) : ℕ := (cats.map (fun ct => ratesW ct.rates)).sum
 
 theorem cats_w (c E : ℕ) (cats : List CatTotal) (hinv : CatsInv ret c E cats) (hc : c ≤ E) :
     (finalSum exactOps .precise c (cats.map (catAmounts exactOps .precise c))).exp ≤ E ∧
     groupsOf (cats.map (catAmounts exactOps .precise c)) = groupsOf cats ∧
     |(finalSum exactOps .precise c (cats.map (catAmounts exactOps .precise c))).toRat - catsQ cats| ≤
       (groupsOf cats : ℚ) * halfUlp (c + 2) := by
-  have hall : ∀ ct ∈ cats.map (catAmounts exactOps .precise c), ct.surcharge = none ∧ ct.amount.exp ≤ E := by
+  have hall : ∀ ct ∈ cats.map (catAmounts exactOps .precise c), ct.amount.exp ≤ E := by
     intro ct hct
     simp only [List.mem_map] at hct
     obtain ⟨x, hx, rfl⟩ := hct
-    obtain ⟨_, h2, h3, _, _⟩ := catAmounts_w c E x (hinv x hx).2 hc
-    exact ⟨h2, h3⟩
+    exact (catAmounts_w c E x (hinv x hx).2 hc).2.1
+  have hsx : ∀ ct ∈ cats.map (catAmounts exactOps .precise c), ∀ s, ct.surcharge = some s → s.exp ≤ ct.amount.exp := by
+    intro ct hct
+    simp only [List.mem_map] at hct
+    obtain ⟨x, hx, rfl⟩ := hct
+    exact catAmounts_surcharge_exp_le .precise (by decide) c x
   refine ⟨finalSum_exp_le c E _ hc hall, ?_, ?_⟩
   · unfold groupsOf
     rw [List.map_map]
     congr 1
     apply List.map_congr_left
     intro x hx
-    exact (catAmounts_w c E x (hinv x hx).2 hc).2.2.2.1
-  · rw [finalSum_toRat .precise (by decide) c _ (fun ct hct s hs => by rw [(hall ct hct).1] at hs; cases hs)]
+    exact (catAmounts_w c E x (hinv x hx).2 hc).2.2.1
+  · rw [finalSum_toRat .precise (by decide) c _ hsx]
     rw [List.map_map]
     unfold catsQ groupsOf
     have hB : ∀ x ∈ cats, |(catSignedQ ∘ catAmounts exactOps .precise c) x
           - (if x.retained then -(ratesQ x.rates) else ratesQ x.rates)| ≤
-        ((x.rates.length : ℕ) : ℚ) * halfUlp (c + 2) := by
+        ((ratesW x.rates : ℕ) : ℚ) * halfUlp (c + 2) := by
       intro x hx
-      obtain ⟨h1, h2, _, _, h5⟩ := catAmounts_w c E x (hinv x hx).2 hc
+      obtain ⟨h1, _, _, h5⟩ := catAmounts_w c E x (hinv x hx).2 hc
       have : catSignedQ (catAmounts exactOps .precise c x) =
-          if x.retained then -((catAmounts exactOps .precise c x).amount.toRat)
-          else (catAmounts exactOps .precise c x).amount.toRat := by
+          if x.retained then -((catAmounts exactOps .precise c x).amount.toRat + optQ (catAmounts exactOps .precise c x).surcharge)
+          else (catAmounts exactOps .precise c x).amount.toRat + optQ (catAmounts exactOps .precise c x).surcharge := by
         unfold catSignedQ
-        simp [h1, h2]
+        rw [h1]
+        cases (catAmounts exactOps .precise c x).surcharge <;> simp [optQ]
       simp only [Function.comp]
       rw [this]
       split
-      · have e : -((catAmounts exactOps .precise c x).amount.toRat) - -(ratesQ x.rates) =
-            -((catAmounts exactOps .precise c x).amount.toRat - ratesQ x.rates) := by ring
+      · have e : -((catAmounts exactOps .precise c x).amount.toRat + optQ (catAmounts exactOps .precise c x).surcharge)
+            - -(ratesQ x.rates) =
+            -((catAmounts exactOps .precise c x).amount.toRat + optQ (catAmounts exactOps .precise c x).surcharge
+              - ratesQ x.rates) := by ring
         rw [e, abs_neg]; exact h5
       · exact h5
     have := list_sum_diff_le' cats _ (fun x => if x.retained then -(ratesQ x.rates) else ratesQ x.rates)
-      (fun x => ((x.rates.length : ℕ) : ℚ) * halfUlp (c + 2)) hB
-    exact le_trans this (le_of_eq (sum_map_mul_const cats (·.rates.length) _))
+      (fun x => ((ratesW x.rates : ℕ) : ℚ) * halfUlp (c + 2)) hB
+    exact le_trans this (le_of_eq (sum_map_mul_const cats (fun ct => ratesW ct.rates) _))
 
 /-! ### `taxTotal` as a whole -/
 
@@ -1118,8 +1279,8 @@ theorem precise_roundTax (c : ℕ) (cats : List CatTotal) (fs : Amount) :
     split
     · omega
     · rw [exact_rescale, rescaleX_exp]; omega
-  · unfold groupsOf roundTax
-    simp [List.map_map, Function.comp_def]
+  · unfold groupsOf ratesW rateW roundTax
+    simp [List.map_map, Function.comp_def, Option.isSome_map]
 
 /-- **the working tax** (precise rule, prices not including tax, rows of the class): not finer
 than `E`, and within one half-unit per rate group of Σ rows' exact tax on the *working* row totals -/
@@ -1185,9 +1346,9 @@ structure DocT (ret : String → Bool) (d : Doc) : Prop where
   chTaxes : ∀ x ∈ d.charges, ∀ cb ∈ x.taxes, ComboOk ret cb
 
 /-- error carried into the tax by the line totals: weight of the line × number of its combos -/
-def linesTaxW (ls : List Line) : ℕ := (ls.map (fun l => lineW l * l.taxes.length)).sum
+def linesTaxW (ls : List Line) : ℕ := (ls.map (fun l => lineW l * comboW l.taxes)).sum
 /-- … and by the document discounts / charges: (own rounding + weight of the sum) × combos -/
-def adjTaxW (W : ℕ) (xs : List DocAdj) : ℕ := (xs.map (fun x => (1 + W) * x.taxes.length)).sum
+def adjTaxW (W : ℕ) (xs : List DocAdj) : ℕ := (xs.map (fun x => (1 + W) * comboW x.taxes)).sum
 /-- weight of the tax: one rounding per rate group (`G` groups) plus the carried errors -/
 def taxW (d : Doc) (G : ℕ) : ℕ :=
   G + linesTaxW d.lines + adjTaxW (sumW d.lines) d.discounts + adjTaxW (sumW d.lines) d.charges
@@ -1226,7 +1387,7 @@ theorem rel_rows (cur : String) (c : ℕ) (rates : List XRate) (ls ls' : List Li
     rw [e]
     refine le_trans (abs_add_le _ _) ?_
     unfold linesTaxW at ih'
-    have hk : (0 : ℚ) ≤ (l.taxes.length : ℚ) := by positivity
+    have hk : (0 : ℚ) ≤ (comboW l.taxes : ℚ) := by positivity
     have := mul_le_mul_of_nonneg_left herr hk
     push_cast
     nlinarith
@@ -1261,11 +1422,11 @@ theorem adjRows_err (c : ℕ) (sum : Amount) (S : ℚ) (W : ℕ) (xs : List DocA
   have hB : ∀ x ∈ xs, |((fun x => rowQ (if sgn then (neg x.amount).toRat else x.amount.toRat) x.taxes) ∘
         docAdj exactOps .precise c sum) x
       - rowQ (if sgn then -(Spec.C01.docAdjQ S x) else Spec.C01.docAdjQ S x) x.taxes| ≤
-      (((1 + W) * x.taxes.length : ℕ) : ℚ) * halfUlp (c + 2) := by
+      (((1 + W) * comboW x.taxes : ℕ) : ℚ) * halfUlp (c + 2) := by
     intro x hxm
     simp only [Function.comp, docAdj_taxes]
     have h1 := docAdj_err c sum S W x (hx x hxm) hs hS
-    have hk : (0 : ℚ) ≤ (x.taxes.length : ℚ) := by positivity
+    have hk : (0 : ℚ) ≤ (comboW x.taxes : ℚ) := by positivity
     cases sgn with
     | true =>
       simp only [if_true, neg_toRat]
@@ -1285,7 +1446,7 @@ theorem adjRows_err (c : ℕ) (sum : Amount) (S : ℚ) (W : ℕ) (xs : List DocA
   have := list_sum_diff_le' xs _ _ _ hB
   refine le_trans this (le_of_eq ?_)
   unfold adjTaxW
-  exact sum_map_mul_const xs (fun x => (1 + W) * x.taxes.length) _
+  exact sum_map_mul_const xs (fun x => (1 + W) * comboW x.taxes) _
 
 theorem doc_tax_w (d : Doc) (p : Pre) (tx : TaxTotal) (hd : DocT ret d) (hpre : pre exactOps d = .ok p)
     (htx : taxTotal exactOps d.rule d.c d.includes p.rows = .ok tx) :
